@@ -64,6 +64,13 @@ pub open spec fn state_dom(s: StoreView) -> bool {
     s.state is Some && rate_ok(st(s).total_native_token.0 as nat, st(s).total_liquid_stake_token.0 as nat)
         && st(s).total_fees.0 <= AMOUNT_MAX() && st(s).total_reward_amount.0 <= AMOUNT_MAX()
 }
+/// what `get_rates` needs in order not to panic (weaker than DOM: K = 10^5, totals <= 10^30)
+pub open spec fn rates_pre(s: StoreView) -> bool {
+    let tn = st(s).total_native_token.0 as nat; let tl = st(s).total_liquid_stake_token.0 as nat;
+    &&& s.state is Some
+    &&& tn <= 2000 * AMOUNT_MAX() && tl <= 2000 * AMOUNT_MAX()
+    &&& tl > 0 ==> tn > 0 && tn <= 100000 * tl && tl <= 100000 * tn
+}
 pub open spec fn redemption_rate(tn: nat, tl: nat) -> nat { if tl == 0 { 0 } else { decimal_ratio(tn, tl) } }
 pub open spec fn purchase_rate(tn: nat, tl: nat) -> nat { if tl == 0 { 0 } else { decimal_ratio(tl, tn) } }
 
@@ -126,4 +133,25 @@ verus! {
 // ------------------------------------------------------------------ exchange-rate formulas (C04)
 pub open spec fn mint_of(tn: nat, tl: nat, x: nat) -> nat { if tn == 0 { x } else { (tl * x) / tn } }
 pub open spec fn unbond_of(tn: nat, tl: nat, b: nat) -> nat { if b == 0 { 0 } else { (tn * b) / tl } }
+} // verus!
+verus! {
+// ------------------------------------------------------------------ ibc-hooks sender (C09)
+pub open spec fn SENDER_PREFIX_SPEC() -> Seq<char> { "ibc-wasm-hook-intermediary"@ }
+pub open spec fn ascii_bytes(s: Seq<char>) -> Seq<u8> { Seq::new(s.len(), |i: int| s[i] as u8) }
+pub open spec fn address_hash_spec(typ: Seq<u8>, key: Seq<u8>) -> Seq<u8> { sha256(sha256(typ) + key) }
+pub open spec fn hooks_sender(prefix: Seq<char>, channel: Seq<char>, sender: Seq<char>) -> Option<Seq<char>> {
+    bech32_enc(prefix, to_base32_spec(address_hash_spec(ascii_bytes(SENDER_PREFIX_SPEC()), str_bytes(channel + ("/"@ + sender)))),
+        crate::bech32::Variant::Bech32)
+}
+/// the account accepted as cross-chain sender for `native` (None: derivation impossible => nobody)
+pub open spec fn hooks_account(c: Config, native: Addr) -> Option<Seq<char>> {
+    hooks_sender(c.protocol_chain_config.account_address_prefix@, c.protocol_chain_config.ibc_channel_id@, native.0@)
+}
+pub open spec fn first_coin(funds: Seq<Coin>, denom: Seq<char>) -> Option<Coin> {
+    if exists|i: int| 0 <= i < funds.len() && funds[i].denom@ == denom {
+        let i = choose|i: int| 0 <= i < funds.len() && funds[i].denom@ == denom
+            && forall|j: int| 0 <= j < i ==> funds[j].denom@ != denom;
+        Some(funds[i])
+    } else { None }
+}
 } // verus!
